@@ -5,7 +5,7 @@
 (* rules of every variable unit-derivable from A are appended to R1 unless already *)
 (* present; finally the unit rules are dropped.                                    *)
 (* Init ranges over all sets of at most MaxRules unit / terminal / binary rules.    *)
-EXTENDS Util, CFG
+EXTENDS Util, CFG, Steps
 CONSTANTS V, MaxRules, N
 Sig == {"a", "b"}
 Tm(a) == <<"t", a>>
@@ -33,21 +33,13 @@ PickOrd == /\ stage = 1 /\ stage' = 2
            /\ idx' = 1
            /\ UNCHANGED Rs
 
-RECURSIVE AppendNew(_, _)
-AppendNew(acc, xs) == IF xs = <<>> THEN acc
-                      ELSE AppendNew(IF Head(xs) \in ToSet(acc) THEN acc ELSE Append(acc, Head(xs)), Tail(xs))
-
 Visit == /\ stage = 2 /\ idx <= Cardinality(V)
-         /\ LET A == ord[idx]
-                W == Derivable(A)
-                cands == SelectSeq(SetToSeq(Rs), LAMBDA r : r[1] \in W /\ ~IsUnitRule(r))
-                copies == [i \in DOMAIN cands |-> <<A, cands[i][2]>>]
-            IN R1' = AppendNew(R1, copies)
+         /\ R1' = UnitVisit(SetToSeq(Rs), R1, ord[idx])
          /\ idx' = idx + 1
          /\ UNCHANGED <<Rs, ord, stage>>
 
 Finish == /\ stage = 2 /\ idx = Cardinality(V) + 1
-          /\ R1' = SelectSeq(R1, LAMBDA r : ~IsUnitRule(r))
+          /\ R1' = UnitFinish(R1)
           /\ stage' = 3
           /\ UNCHANGED <<Rs, ord, idx>>
 
